@@ -214,6 +214,14 @@ func validateRaw(msg messages.Builder, d []byte, strict bool) error {
 	}
 	bodyLength := blVal.Value().(int)
 
+	// The framing fields must be where FIX puts them: BeginString first, BodyLength second
+	// and CheckSum last. Fields with these tags found anywhere else do not frame the message.
+	head := bytes.Join([][]byte{bs.ToBytes(), bl.ToBytes(), nil}, fix.Delimiter)
+	tail := bytes.Join([][]byte{nil, cs.ToBytes(), nil}, fix.Delimiter)
+	if bs.ToBytes() == nil || cs.ToBytes() == nil || !bytes.HasPrefix(d, head) || !bytes.HasSuffix(d, tail) {
+		return fmt.Errorf("the message must start with the BeginString and BodyLength fields and end with the CheckSum field")
+	}
+
 	offset := len(bs.ToBytes()) + 1 // extra delimiter
 	offset += len(bl.ToBytes()) + 1 // extra delimiter
 	length := len(d) - offset
